@@ -437,6 +437,20 @@ func genTWCC(r *rng, sz int) *rtcp.TransportLayerCC {
 			total += 7
 		}
 	}
+	if len(t.RecvDeltas) > 2 && r.chance(10) {
+		// two entries of the delta list share one *RecvDelta (legal for equal deltas)
+		i, j := r.intn(len(t.RecvDeltas)), r.intn(len(t.RecvDeltas))
+		if t.RecvDeltas[i].Type == t.RecvDeltas[j].Type {
+			t.RecvDeltas[j] = t.RecvDeltas[i]
+		}
+	}
+	if len(t.PacketChunks) > 1 && r.chance(10) {
+		// the same chunk object twice
+		i, j := r.intn(len(t.PacketChunks)), r.intn(len(t.PacketChunks))
+		if sameChunkShape(t.PacketChunks[i], t.PacketChunks[j]) {
+			t.PacketChunks[j] = t.PacketChunks[i]
+		}
+	}
 	t.PacketStatusCount = uint16(total)
 	if total > 1 && r.chance(4) {
 		// the last chunk reports more symbols than the packet status count covers (legal: a status vector
@@ -477,6 +491,27 @@ func genTWCC(r *rng, sz int) *rtcp.TransportLayerCC {
 		}
 	}
 	return t
+}
+
+// sameChunkShape reports whether two chunks contribute the same symbols (so that one object can stand for both).
+func sameChunkShape(a, b rtcp.PacketStatusChunk) bool {
+	switch x := a.(type) {
+	case *rtcp.RunLengthChunk:
+		y, ok := b.(*rtcp.RunLengthChunk)
+		return ok && *x == *y
+	case *rtcp.StatusVectorChunk:
+		y, ok := b.(*rtcp.StatusVectorChunk)
+		if !ok || x.SymbolSize != y.SymbolSize || len(x.SymbolList) != len(y.SymbolList) {
+			return false
+		}
+		for i := range x.SymbolList {
+			if x.SymbolList[i] != y.SymbolList[i] {
+				return false
+			}
+		}
+		return true
+	}
+	return false
 }
 
 func genCCFB(r *rng, sz int) *rtcp.CCFeedbackReport {
@@ -676,6 +711,10 @@ func genXR(r *rng, sz int) *rtcp.ExtendedReport {
 		}
 		x.Reports = append(x.Reports, genXRBlock(r, r.intn(8), bsz))
 	}
+	if len(x.Reports) > 0 && r.chance(10) {
+		// the same block object listed twice
+		x.Reports = append(x.Reports, x.Reports[r.intn(len(x.Reports))])
+	}
 	return x
 }
 
@@ -809,6 +848,10 @@ func genCompound(r *rng, sz int) *rtcp.CompoundPacket {
 		k := r.intn(numKinds - 2) // no Raw, no nested compound
 		c = append(c, genPacketSz(r, k, sub()))
 	}
+	if len(c) > 2 && r.chance(10) {
+		// the same packet object twice in one compound (legal: e.g. a BYE or a feedback packet repeated)
+		c = append(c, c[2+r.intn(len(c)-2)])
+	}
 	return &c
 }
 
@@ -833,6 +876,9 @@ func genList(seed uint64) []rtcp.Packet {
 			sz = szOne
 		}
 		out = append(out, genPacketSz(r, k, sz))
+	}
+	if len(out) > 0 && r.chance(10) {
+		out = append(out, out[r.intn(len(out))]) // the same packet object twice in the list
 	}
 	return out
 }
